@@ -1148,9 +1148,9 @@ package websocket
 //@ func compressNoContextTakeover
 //@ tags C02 C15 C07
 //@ requires 0 - 2 <= level && level <= 9
-//@ assert at call:NewWriter#1[C02.compwire]: typeIs(arg0, "*truncWriter") && asType(arg0, "*truncWriter").w == w && asType(arg0, "*truncWriter").n == 0 && arg1 == level
-//@ assert at call:Reset#1[C02.compwire]: typeIs(arg1, "*truncWriter") && asType(arg1, "*truncWriter").w == w && asType(arg1, "*truncWriter").n == 0
-//@ ensures[C02.compwire] typeIs(result, "*flateWriteWrapper") && asType(result, "*flateWriteWrapper").tw.w == w && asType(result, "*flateWriteWrapper").tw.n == 0 && asType(result, "*flateWriteWrapper").fw != nil
+//@ assert at call:NewWriter#1[C02+C15.compwire]: typeIs(arg0, "*truncWriter") && asType(arg0, "*truncWriter").w == w && asType(arg0, "*truncWriter").n == 0 && arg1 == level
+//@ assert at call:Reset#1[C02+C15.compwire]: typeIs(arg1, "*truncWriter") && asType(arg1, "*truncWriter").w == w && asType(arg1, "*truncWriter").n == 0
+//@ ensures[C02+C15.compwire] typeIs(result, "*flateWriteWrapper") && asType(result, "*flateWriteWrapper").tw.w == w && asType(result, "*flateWriteWrapper").tw.n == 0 && asType(result, "*flateWriteWrapper").fw != nil
 
 // ---------------------------------------------------------------------------
 // prepared.go
@@ -1666,3 +1666,15 @@ package websocket
 //@ bind dc,derr after call:NetDial#1
 //@ assert at call:NetDial#1[C18.adapter]: same(arg1, net) && same(arg2, addr)
 //@ assert at return#1[C18.adapter]: r0 == dc && r1 == derr
+
+//@ func (*Conn).LocalAddr
+//@ tags C11
+//@ requires c.conn != nil
+//@ pure
+//@ assert at call:LocalAddr#1[C11.getter]: arg0 == c.conn
+
+//@ func (*Conn).RemoteAddr
+//@ tags C11
+//@ requires c.conn != nil
+//@ pure
+//@ assert at call:RemoteAddr#1[C11.getter]: arg0 == c.conn
